@@ -288,9 +288,10 @@ def factory(key):
     if key[0] == "zip3":
         _, maxsize, kind, mode, ca, cb, cc = key
         return lambda: Zip3(join="zip:%d" % maxsize, kind=kind, mode=mode, counts=(ca, cb, cc))
-    if key[0] == "fanout":
+    if key[0] in ("fanout", "fanoutref"):
         _, nodes, kind, mode, n = key
-        return lambda: FanOut(nodes=tuple(s for s in nodes.split(",") if s), kind=kind, mode=mode, n=n, nprod=1)
+        return lambda: FanOut(nodes=tuple(s for s in nodes.split(",") if s), kind=kind, mode=mode, n=n, nprod=1,
+                              refs=key[0] == "fanoutref")
     if key[0] == "latest2":
         _, join, kind, mode, na, nb = key
         return lambda: Latest2(join=join, left="", right="", kind=kind, mode=mode, n=na, nb=nb)
@@ -329,6 +330,8 @@ def plan(ctx):
     for nd in ("", "map", "flatten2"):
         for kind in (("future", "native", "gen") if T else ("future", "native")):
             jobs.append((("fanout", nd, kind, "await", 2, ), 1))
+            # elements carrying checkpoint counters: the deferred-release path combines the consumers' awaitables
+            jobs.append((("fanoutref", nd, kind, "await", 2, ), 1))
     for j in ("zip_latest", "combine_latest"):
         jobs.append((("latest2", j, "future", "await", 2, 2), 1))
         jobs.append((("latest2", j, "native", "burst", 3, 1), 1 if T else 0))
